@@ -413,8 +413,6 @@ where
 }
 
 //@ extract fn src/algorithms/components/strong_connectivity.rs strongly_connected_components props=C10,C20
-//@ head
-#[verifier::exec_allows_no_decreases_clause]
 //@ rewrite
 -> Result<Vec<HashSet<T>>, Error>
 //@ with
@@ -459,6 +457,7 @@ for source in graph.get_all_node_names() {
             scc_idle(preorder@, scc_found@, i),
             0 <= si <= av.len(),
             forall|t: int| 0 <= t < si ==> scc_found@.contains(*#[trigger] av[t]),
+        decreases av.len() - si,
     {
         let source = all_names[si];
         si = si + 1;
@@ -481,6 +480,8 @@ let ghost i0 = i;
                 scc_state(*graph, preorder@, lowlink@, scc_found@, queue@, scc_queue@, i, i0),
                 scc_found@.contains(*source) || (queue@.len() > 0 && *queue@[0] == *source),
                 forall|t: int| 0 <= t < si - 1 ==> scc_found@.contains(*#[trigger] av[t]),
+            // [C20.scc.terminates] a step numbers a node (the counter is bounded), or pushes an unnumbered node onto a numbered top, or pops the stack
+            decreases i32::MAX - i, (if top_numbered(preorder@, queue@) { 1int } else { 0int }), queue@.len(),
 //@ before if !preorder.contains_key(&v) {
             let ghost pre0 = preorder@;
             let ghost iold = i;
@@ -516,7 +517,8 @@ let nbs = neighbors.get(v).unwrap_or(&empty_hs);
                     forall|k: int| 0 <= k < wl.len() ==> graph.knows(*#[trigger] wl[k]),
                     scc_state(*graph, preorder@, lowlink@, scc_found@, q1, scc_queue@, i, i0), top_numbered(preorder@, q1),
                     done ==> queue@ == q1 && (forall|t: int| 0 <= t < cnt ==> preorder@.contains_key(#[trigger] wl[t])),
-                    !done ==> scc_state(*graph, preorder@, lowlink@, scc_found@, queue@, scc_queue@, i, i0) && queue@.len() > 0 && queue@[0] == q1[0],
+                    !done ==> scc_state(*graph, preorder@, lowlink@, scc_found@, queue@, scc_queue@, i, i0) && queue@.len() > 0 && queue@[0] == q1[0]
+                        && !top_numbered(preorder@, queue@),
                 ensures
                     done ==> cnt == wl.len(),
 //@ rewrite
@@ -527,6 +529,7 @@ queue.push(w);
                         // w is not numbered: it is neither assigned, nor finished, nor on the stack (all of those are numbered by now)
                         lemma_push(*graph, preorder@, lowlink@, scc_found@, q1, scc_queue@, i, i0, w);
                         assert(queue@ == q1.push(w));
+                        assert(queue@[queue@.len() - 1] == w);
                     }
 //@ bodyend 3
                 proof { cnt = cnt + 1; }
@@ -588,6 +591,7 @@ vmin2(lowlink.get(v).unwrap(), preorder.get(&w).unwrap()),
                         forall|x: T| scc@.contains(x) <==> (x == *v || exists|k: int| scc_queue@.len() <= k < sq0.len() && *#[trigger] sq0[k] == x),
                         forall|b: int| 0 <= b < sq0.len() ==> preorder@.contains_key(#[trigger] sq0[b]),
                         preorder@.contains_key(v),
+                    decreases scc_queue@.len(),
 //@ rewrite
 scc_found.union(&scc).cloned().collect();
 //@ with
